@@ -87,28 +87,30 @@ def run(prop, repo, seed=0):
             continue
         jobs.append((prop, repo.root, {rel: src.replace(m["old"], m["new"])}))
         meta.append(m)
-    seeded_dirs = sorted(glob.glob(os.path.join(VERIF, "seeded", prop + "*")))
+    # every stored seeded change that some rule of THIS property is recorded to catch (a change written against another
+    # property may be caught here, and vice versa)
+    seeded_dirs = sorted(glob.glob(os.path.join(VERIF, "seeded", "*")))
     for d in seeded_dirs:
         patch = os.path.join(d, "patch.diff")
-        if not os.path.exists(patch):
+        mj = os.path.join(d, "meta.json")
+        if not (os.path.exists(patch) and os.path.exists(mj)):
+            continue
+        name = os.path.basename(d)
+        try:
+            det = json.load(open(mj)).get("detected_by") or []
+        except Exception:
+            det = []
+        mine = [r for r in det if r.startswith(prop + ".")]
+        if not mine:
+            if name.startswith(prop) and not det:
+                skipped.append(f"seeded:{name} (recorded as not statically detectable; see meta.json)")
             continue
         ov = _apply_patch_overlay(repo.root, patch)
-        name = os.path.basename(d)
         if ov is None:
             skipped.append(f"seeded:{name} (patch does not apply to the current tree)")
             continue
-        expect = None
-        mj = os.path.join(d, "meta.json")
-        if os.path.exists(mj):
-            try:
-                expect = json.load(open(mj)).get("detected_by")
-            except Exception:
-                expect = None
-        if expect == []:
-            skipped.append(f"seeded:{name} (recorded as not statically detectable; see meta.json)")
-            continue
         jobs.append((prop, repo.root, ov))
-        meta.append({"kind": "seeded", "name": name, "expect": expect[0] if expect else None})
+        meta.append({"kind": "seeded", "name": name, "expect": mine[0]})
     res = {"programs": len(jobs), "breaking": 0, "breaking_detected": 0, "twins": 0, "twins_silent": 0,
            "seeded": 0, "seeded_detected": 0, "skipped": skipped, "problems": [], "cases": []}
     if not jobs:
